@@ -3,6 +3,10 @@
 import json
 props=[json.loads(l) for l in open('/verif/properties.jsonl')]
 claimed={
+ "C18": dict(level="model_checking",
+   text="ExpandSchemaWithBasePath runs from SSA on small multi-document worlds under four cache regimes; which documents are pre-loaded is a vector of solver bits decided lazily, so one path covers every pre-load subset it never looked at. Result equality with the cache-less run and the at-most-once / never-if-cached loader discipline are asserted on the recorded call log.",
+   note="Trusted: as C02. Bounds: 3 documents, 3 slots, one reuse step.",
+   design="4 C18", technique="bounded symbolic execution of go/ssa with symbolic preload bits + SMT (z3), counterexample replay"),
  "C08": dict(level="model_checking",
    text="ExpandSpec runs from SSA on worlds with every kind of unresolvable target; which documents the loader refuses and ContinueOnError are solver variables branched on lazily, so a path's verdict covers every fault subset it never consulted. Oracle: error iff an unresolvable $ref lies on the unfolding (strict); bisimilarity with verbatim unresolvable refs (continue).",
    note="Trusted: as C02. Bounds: 3 documents, 3 slots, 2 fault bits.",
